@@ -247,7 +247,7 @@ PROPS["C13"] = {
                 "radix 16 with 27, radix 10 with 20; more in the thorough tier) against exact 128-bit integer arithmetic followed by one "
                 "correctly rounded conversion; plus ToInt32 for all 2^64 doubles; plus StringToNumber's 0b/0o/0x digit kernel "
                 "(parse_non_decimal_digits): ALL 3-byte strings per base (accept/reject incl. signs, exact value) and exact rounding at 14/16 hex, "
-                "22 octal, 60 binary digits (32 hex in the thorough tier). The formatting direction and decimal StringToNumber are NOT decided.",
+                "22 octal, 60 binary and 32 hex digits (128 bits). The formatting direction and decimal StringToNumber are NOT decided.",
         "note": "Trusted: Kani/CBMC float theory, Rust integer->float conversion. Outside: ryu-js, fast-float2, toFixed/toPrecision/"
                 "toExponential, toString(radix).",
         "technique": "bounded model checking of the compiled Rust (Kani/CBMC, SAT) vs exact 128-bit integer model",
